@@ -19,7 +19,7 @@ import mutate  # noqa: E402  (candidates / SWAPS)
 import translate as T  # noqa: E402
 
 W = "/tmp/mutfn"
-MODS = ["EvalexprVerif.Proofs." + m for m in ("AgreeFnValueType", "AgreeFnError", "AgreeFnValue", "AgreeFnNumeric", "AgreeFnBuiltin", "AgreeFnContext", "AgreeFnOperator",
+MODS = ["EvalexprVerif.Proofs." + m for m in ("AgreeFnValueType", "AgreeFnError", "AgreeFnValue", "AgreeFnNumeric", "AgreeFnBuiltin", "AgreeFnLexer", "AgreeFnContext", "AgreeFnOperator",
                                                 "AgreeFnOperatorTables", "AgreeFnTree", "AgreeFnTreeBuild", "AgreeFnTokensToTree", "AgreeFnIter", "AgreeFnInterface")]   # (tree-builder extension: + OperatorTables, TreeBuild, TokensToTree)
 
 
